@@ -1396,3 +1396,91 @@ Proof.
     { unfold apply. destruct (step v s o) as [s'| |] eqn:E; [eapply step_full; eauto|split; [exact I|lia]|split; [exact I|lia]]. }
     destruct A as [I' G]. destruct (IH _ H2 G2 I') as [I'' G']. split; [exact I''|lia].
 Qed.
+(* ---------------------------------------------------------------- the spec checker accepts the model's runs *)
+(* an observation [p] of a model state [s]: same records, same supply, the module account's balances
+   of the listed denominations; [well_listed]: what the harness guarantees of any observation (every
+   denomination that occurs is listed, the other baskets' tokens have the recorded supply) *)
+Definition represents (s : state) (p : post) : Prop :=
+  p_bk p = s_bk s /\ p_supply p = s_supply s /\ map fst (p_sibs p) = s_sibs s /\
+  forall d, In d (denoms_of p) -> bal_at p MODULE d = s_bal s MODULE d.
+Definition well_listed (p : post) : Prop :=
+  forallb (fun bs => snd bs =? b_amount (fst bs)) (p_sibs p) = true /\
+  forallb (fun b => forallb (fun t => existsb (Z.eqb (t_denom t)) (denoms_of p)) (b_tokens b)
+                    && forallb (fun c => existsb (Z.eqb (fst c)) (denoms_of p)) (b_surplus b)) (all_baskets p) = true.
+
+Lemma books_of_Books : forall s p, Books s -> represents s p -> well_listed p -> books p = true.
+Proof.
+  intros s p [B1 B2] (Rb & Rs & Rsib & Rbal) [L1 L2]. unfold books. rewrite L1, L2, !Bool.andb_true_r.
+  apply andb_true_intro. split; [rewrite Rb, Rs; lia|].
+  apply forallb_forall. intros d Hd. rewrite recorded_total_eq, Rb, Rsib, (Rbal d Hd). specialize (B2 d). lia.
+Qed.
+
+Lemma run_snoc : forall v s l o, run v s (l ++ [o]) = apply v (run v s l) o.
+Proof. intros. unfold run. rewrite fold_left_app. reflexivity. Qed.
+Lemma burns_guarded_snoc : forall v l s o, burns_guarded v s (l ++ [o]) -> burn_guard (run v s l) o.
+Proof.
+  intros v. induction l as [|x r IH]; intros s o H; cbn [app burns_guarded] in H.
+  - destruct H as [H _]. exact H.
+  - destruct H as [_ H]. change (run v s (x :: r)) with (run v (apply v s x) r). apply IH. exact H.
+Qed.
+Lemma burns_guarded_prefix : forall v l s o, burns_guarded v s (l ++ [o]) -> burns_guarded v s l.
+Proof.
+  intros v. induction l as [|x r IH]; intros s o H; cbn [app burns_guarded] in *; [exact I|].
+  destruct H as [H1 H2]. split; [exact H1|eapply IH; eauto].
+Qed.
+
+Lemma max_weight_ge : forall ts d w, wof ts d = Some w -> w <= fold_right Z.max 0 (map t_weight ts).
+Proof.
+  unfold wof. induction ts as [|t r IH]; cbn [find_token]; intros d w H; [discriminate|]. cbn [map fold_right].
+  destruct (t_denom t =? d); [injection H as <-; lia|]. specialize (IH _ _ H). lia.
+Qed.
+Lemma pairs_slack_le : forall ps ts, weights_pos ts ->
+  pairs_slack ts ps <= Z.of_nat (List.length ps) * (fold_right Z.max 0 (map t_weight ts) / (2 * PREC) + 1).
+Proof.
+  induction ps as [|p r IH]; intros ts W; cbn [pairs_slack List.length]; [lia|]. specialize (IH ts W).
+  rewrite Nat2Z.inj_succ. set (M := fold_right Z.max 0 (map t_weight ts)) in *.
+  assert (pair_slack ts p <= M / (2 * PREC) + 1).
+  { unfold pair_slack. destruct (wof ts (snd p)) as [w|] eqn:F.
+    - pose proof (max_weight_ge _ _ _ F). pose proof PREC_pos. assert (w / (2 * PREC) <= M / (2 * PREC)) by (apply Z.div_le_mono; lia). fold M in H. lia.
+    - pose proof PREC_pos. assert (0 <= M / (2 * PREC)); [apply Z.div_pos; [unfold M; clear; induction (map t_weight ts); cbn; lia|lia]|lia]. }
+  lia.
+Qed.
+
+(* the two clauses that carry the backing of the token -- [books] and [backed] -- never fire on a run of
+   the model: for ALL operation lists, at every step, for any observations of the states before and
+   after it.  (Repaired burn order; the other clauses restate, per operation, the theorems
+   C11_mint_*, C11_burn_*, C11_swap_* above and are checked on the real observations only.) *)
+Theorem chk_sound_books_backed : forall v l o s pre p,
+  Forall (op_okE v) (l ++ [o]) -> Forall (op_okF v) (l ++ [o]) -> burns_guarded v s (l ++ [o]) ->
+  InvE s -> InvF s ->
+  represents (run v s l) pre -> represents (run v s (l ++ [o])) p -> well_listed p ->
+  books_step pre p = true /\ deficit p <= deficit pre + allowance o pre p.
+Proof.
+  intros v l o s pre p HE HF HG IE IF Rpre Rp WL.
+  apply Forall_app in HE. destruct HE as [HE1 HE2]. apply Forall_app in HF. destruct HF as [HF1 HF2].
+  inversion HE2 as [|? ? oE _]; subst. inversion HF2 as [|? ? oF _]; subst.
+  pose proof (books_match_bank_with_edits v l s HE1 IE) as IE1.
+  destruct (backed_over_all_histories v l s HF1 (burns_guarded_prefix _ _ _ _ HG) IF) as [IF1 _].
+  pose proof (burns_guarded_snoc _ _ _ _ HG) as G1.
+  set (s1 := run v s l) in *. rewrite run_snoc in Rp. fold s1 in Rp.
+  assert (IE2 : InvE (apply v s1 o)).
+  { unfold apply. destruct (step v s1 o) as [s'| |] eqn:E; try exact IE1. eapply step_invE; eauto. }
+  assert (G2 : gap (apply v s1 o) <= Z.max (gap s1) 0 + op_slackF s1 o).
+  { unfold apply. pose proof (op_slackF_nonneg s1 o IF1). destruct (step v s1 o) as [s'| |] eqn:E; try lia.
+    destruct (step_full _ _ _ _ E oF G1 IF1) as [_ G]. exact G. }
+  split.
+  - destruct IE2 as [B2 _]. pose proof (books_of_Books _ _ B2 Rp WL) as Bp. unfold books_step. rewrite Bp.
+    destruct Rp as (Rb & Rs & Rsib & Rbal). destruct B2 as [B21 B22].
+    rewrite Bool.orb_true_r. cbn [andb].
+    apply andb_true_intro. split; [rewrite Rb, Rs; destruct (p_supply pre =? b_amount (p_bk pre)); cbn; lia|].
+    apply forallb_forall. intros d Hd. unfold shortfall. rewrite recorded_total_eq, Rb, Rsib, (Rbal d Hd). specialize (B22 d). lia.
+  - destruct Rpre as (Qb & Qs & _). destruct Rp as (Rb & Rs & _).
+    assert (Dp : deficit p = Z.max 0 (gap (apply v s1 o))) by (unfold deficit, gap, value_of, value; rewrite Rb, Rs; reflexivity).
+    assert (Dq : deficit pre = Z.max 0 (gap s1)) by (unfold deficit, gap, value_of, value; rewrite Qb, Qs; reflexivity).
+    assert (A : op_slackF s1 o <= allowance o pre p).
+    { destruct IF1 as [(_ & W & N & _) _]. destruct o; cbn [op_slackF op_slack allowance]; try lia.
+      - unfold burn_slack, value_of, value. rewrite Qb. pose proof PREC_pos. unfold two_prec. lia.
+      - unfold max_weight, two_prec. rewrite Qb. apply pairs_slack_le. apply weights_all_pos_wof. exact W.
+      }
+    pose proof (op_slackF_nonneg s1 o IF1). rewrite Dp, Dq. lia.
+Qed.
